@@ -445,6 +445,9 @@ func TestC17Replay(t *testing.T) {
 	if err := json.Unmarshal(v.Case, &c); err != nil {
 		t.Fatal(err)
 	}
+	if c.Op == "" {
+		t.Skip("no such case type") // a case of the format-switch unit
+	}
 	if c.Op == "setrunid" {
 		checkSetRunID(t, c)
 		return
